@@ -58,6 +58,13 @@ def value_before_notify(ctx, db):
                 if not rhs.startswith('&('):
                     rhs = origin_in_trace(tr, w[-1], rhs)[0] or rhs        # the pointer came through a helper / local
                 lval = bool(re.fullmatch(r'&\(param:\w+\)', rhs)) and not em
+                if lval:
+                    # only the overload that takes an lvalue reference may broadcast the caller's object: a temporary bound to an rvalue reference /
+                    # forwarding parameter is gone when listeners queued in the returned suspend point are resumed later
+                    pn = rhs[len('&(param:'):-1]
+                    pt = next((q.get('ctype') or q.get('type') or '' for q in f['params'] if q.get('name') == pn), '')
+                    if pt.rstrip().endswith('&&') or not pt.rstrip().endswith('&'):
+                        bad = bad or ('the pointer is aimed at a temporary / by-value argument (%s) instead of the stored copy: listeners resumed after the call read a dead object' % pt.strip(), tr)
                 if not lval:
                     if not em or em[-1] > w[-1]:
                         bad = bad or ('the value is not stored before the pointer is aimed at the storage', tr)
